@@ -108,6 +108,7 @@ func main() {
 		fs.StringVar(&opts.Solver2, "solver2", opts.Solver2, "confirming solver")
 		fs.IntVar(&opts.MaxViolations, "max-violations", 1, "stop after this many")
 		fs.Int64Var(&opts.MaxPaths, "max-paths", 0, "path limit")
+		doReplay := fs.Bool("replay", false, "replay violation candidates natively")
 		fs.BoolVar(&opts.Profile, "profile", false, "histogram of solver-checked obligations")
 		fs.BoolVar(&opts.CheckAbstract, "check-abstract", false, "cross-check interval verdicts against the solver")
 		fs.Parse(os.Args[2:])
@@ -122,6 +123,14 @@ func main() {
 		if err != nil {
 			fmt.Fprintln(os.Stderr, "ERROR:", err)
 			os.Exit(2)
+		}
+		if *doReplay && e != nil {
+			for _, v := range e.violations {
+				path, _ := writeReplayFile("DBG", *tier, HarnessSpec{Pkg: *pkg, Entry: *entry}, v, false)
+				rep, out, rerr := nativeReplay(path)
+				fmt.Printf("native replay of %q: reproduced=%v err=%v inputs=%v\n%s\n", v.Msg, rep, rerr, renderTrace(v.Trace), tail(out, 2500))
+				os.Remove(path)
+			}
 		}
 	case "check":
 		os.Exit(cmdCheck(os.Args[2:]))
